@@ -120,4 +120,20 @@ SPECS = {
         },
         bucket_k=16,
     ),
+    "C12": Spec("C12", "B", {
+        "quick": {"buckets": 480, "soft_s": 70, "hard_s": 400, "recheck_every": 6},
+        "thorough": {"buckets": 6400, "soft_s": 1200, "hard_s": 2400, "recheck_every": 12},
+    }, bucket_k=8),
+    "C11": Spec("C11", "B", {
+        "quick": {"buckets": 480, "soft_s": 70, "hard_s": 400, "recheck_every": 6},
+        "thorough": {"buckets": 6400, "soft_s": 1200, "hard_s": 2400, "recheck_every": 12},
+    }, bucket_k=8),
+    "C09": Spec("C09", "B", {
+        "quick": {"buckets": 480, "soft_s": 70, "hard_s": 400, "recheck_every": 6},
+        "thorough": {"buckets": 6400, "soft_s": 1200, "hard_s": 2400, "recheck_every": 12},
+    }, bucket_k=8),
+    "C18": Spec("C18", "B", {
+        "quick": {"buckets": 480, "soft_s": 70, "hard_s": 400, "recheck_every": 6},
+        "thorough": {"buckets": 6400, "soft_s": 1200, "hard_s": 2400, "recheck_every": 12},
+    }, bucket_k=12),
 }
